@@ -95,6 +95,7 @@ COQTY = {"bool": "bool", "str": "pystr", "obj": "atom", "text": "ptext", "optN":
 RESERVED = {"using", "type", "end", "in", "at", "as", "return", "match", "with", "fun", "let", "if", "then", "else", "fix", "for",
             "where", "of", "Set", "Prop", "Type", "forall", "exists", "do", "F", "out", "mod"}
 EXC = {"ValueError": "EValue", "TypeError": "EType", "AttributeError": "EAttr"}
+REBIND_OK = {"ignore_numeric_type_changes": "numbers", "ignore_string_type_changes": "strings"}
 KINDS = {"values_changed": "KValue", "type_changes": "KType"}
 
 
@@ -123,6 +124,10 @@ def dotted(e):
 
 def is_doc(s):
     return isinstance(s, ast.Expr) and isinstance(s.value, ast.Constant) and isinstance(s.value.value, str)
+
+
+def raises_always(stmts):
+    return bool(stmts) and isinstance(stmts[-1], ast.Raise)
 
 
 def returns_always(stmts):
@@ -238,7 +243,7 @@ class Fn:
     def expr(self, e, env):
         if isinstance(e, ast.Constant):
             if e.value is None:
-                return [], "None", "none"
+                return [], "py_None", "none"
             if e.value is True or e.value is False:
                 return [], ("true" if e.value else "false"), "bool"
             if isinstance(e.value, str):
@@ -321,7 +326,7 @@ class Fn:
     def cond(self, e, env):
         ls, t, ty = self.expr(e, env)
         if ty == "constfalse":
-            return ls, "false",
+            return ls, "false"
         if ty == "opttunit" or ty == "optdict":
             return ls, "(py_truthy_opt %s)" % t
         if ty != "bool":
@@ -516,8 +521,13 @@ class Fn:
                     add(n)
             elif isinstance(s, ast.Expr) and self.is_report(s):
                 add("out")
-            elif isinstance(s, (ast.With, ast.Try)):
-                for n in self.assigned(getattr(s, "body", [])):
+            elif isinstance(s, ast.With):
+                for q in s.body:
+                    if isinstance(q, ast.Try):
+                        for n in self.assigned(q.body):
+                            add(n)
+            elif isinstance(s, ast.Try):
+                for n in self.assigned(s.body):
                     add(n)
         return out
 
@@ -525,6 +535,10 @@ class Fn:
         v = s.value
         return (isinstance(v, ast.Call) and isinstance(v.func, ast.Attribute) and v.func.attr == "_report_result"
                 and self.self_attr(v.func))
+
+    def is_complex_test(self, e):
+        return (isinstance(e, ast.Call) and dotted(e.func) == "isinstance" and len(e.args) == 2
+                and dotted(e.args[1]) == "only_complex_number")
 
     def is_logging(self, s):
         v = s.value
@@ -580,8 +594,6 @@ class Fn:
                     L += [pad + q for q in ls + c] + [pad + "Ok %s" % t]
                 return L
             if isinstance(s, ast.Raise):
-                if k[0] != "tail":
-                    self.bad(s, "raise inside a joined branch")
                 x = s.exc
                 nm = x.func.id if isinstance(x, ast.Call) and isinstance(x.func, ast.Name) else (x.id if isinstance(x, ast.Name) else None)
                 if nm not in EXC:
@@ -606,18 +618,21 @@ class Fn:
             elif isinstance(s, ast.Assign):
                 L += [pad + q for q in self.assign(s, env)]
             elif isinstance(s, ast.If):
+                if self.self_attr(s.test) and ATTRS.get(s.test.attr, (None, None))[1] == "constfalse":
+                    # T4: a branch guarded by an option outside the record (constant False) is dropped
+                    self.tr.used_attrs.add(s.test.attr)
+                    L[-1] = pad + "(* [T4] `if self.%s:` dropped (the option is outside the record: constant False) *)" % s.test.attr
+                    stmts = stmts[:i] + list(s.orelse) + rest
+                    continue
+                if self.is_complex_test(s.test):
+                    # S2: the complex branch is outside the universe
+                    L[-1] = pad + "(* [S2] %s: the branch is outside the universe *)" % clean_comment(ast.unparse(s.test))
+                    r = ast.parse("raise TypeError()").body[0]
+                    ast.copy_location(r, s.body[0])
+                    s = ast.If(test=s.test, body=[r], orelse=s.orelse)
+                    ast.copy_location(s, r)
                 ls, t = self.cond(s.test, env)
                 L += [pad + q for q in ls]
-                dropped = (t == "false")       # T4: a branch guarded by an option outside the record
-                if dropped:
-                    L.append(pad + "(* [T4] branch guarded by a constant-false option dropped *)")
-                    if not s.orelse:
-                        i += 1
-                        continue
-                    stmts = stmts[:i] + list(s.orelse) + rest
-                    L.pop(); L.pop()
-                    L.append(pad + "(* [T4] `if <constant-false option>` dropped: %s *)" % clean_comment(ast.unparse(s.test)))
-                    continue
                 if k[0] == "tail" and returns_always(s.body) and not returns_always(s.orelse) and rest:
                     b1 = self.block(s.body, dict(env), k, ind + 1)
                     b2 = self.block(list(s.orelse) + rest, env, k, ind + 1)
@@ -630,7 +645,8 @@ class Fn:
                     b1 = self.block(s.body, dict(env), k, ind + 1)
                     b2 = self.block(s.orelse, dict(env), k, ind + 1)
                     return L + [pad + "if %s then (" % t] + b1 + [pad + ") else ("] + b2 + [pad + ")"]
-                if returns_always(s.body) or returns_always(s.orelse):
+                r1, r2 = raises_always(s.body), raises_always(s.orelse)
+                if (returns_always(s.body) and not r1) or (returns_always(s.orelse) and not r2) or (r1 and r2):
                     self.bad(s, "return inside an if that cannot be put in tail position")
                 vs = [v for v in self.assigned([s]) if v not in self.erased]
                 if not vs:
@@ -644,10 +660,12 @@ class Fn:
                 self.block(s.orelse, e2, ("probe",), ind + 1)
                 self.n = n0
                 tys = {}
+                # a name bound on one path only is local to that path (a later read of it is rejected as an unknown name)
+                vs = [v for v in vs if (r1 or v in e1) and (r2 or v in e2)]
                 for v in vs:
-                    if v not in e1 or v not in e2:
-                        self.bad(s, "local %r is not assigned on every path through this if" % v)
-                    tys[v] = self.join_ty(s, e1[v], e2[v])
+                    tys[v] = e2[v] if r1 else (e1[v] if r2 else self.join_ty(s, e1[v], e2[v]))
+                if not vs:
+                    self.bad(s, "an if statement without a joinable effect")
                 e1, e2 = dict(env), dict(env)
                 b1 = self.block(s.body, e1, ("join", vs, tys), ind + 1)
                 b2 = self.block(s.orelse, e2, ("join", vs, tys), ind + 1)
@@ -767,23 +785,23 @@ class Fn:
         sub = Fn(self.tr, self.fdef, self.spec)
         sub.selfname, sub.erased = self.selfname, self.erased
         body = sub.block(s.body, benv, ("join", carried, tys), 1)
-        rt = COQTY[tys[carried[0]]] if len(carried) == 1 else "(" + " * ".join(COQTY[tys[v]] for v in carried) + ")"
+        rt = "(%s)" % COQTY[tys[carried[0]]] if len(carried) == 1 else "(" + " * ".join(COQTY[tys[v]] for v in carried) + ")"
         ps = "".join(" (%s : %s)" % (vname(v), COQTY[tys[v]]) for v in carried)
-        live = [v for v in env if v not in carried and v != x and env[v] in COQTY and v in {n.id for n in ast.walk(s) if isinstance(n, ast.Name)}]
+        live = [v for v in env if v not in carried and v != x and env[v] in COQTY and v in {n.id for b in s.body for n in ast.walk(b) if isinstance(n, ast.Name)}]
         lp = "".join(" (%s : %s)" % (vname(v), COQTY[env[v]]) for v in live)
         la = "".join(" " + vname(v) for v in live)
-        pat = vname(carried[0]) if len(carried) == 1 else "r"
-        unpack = "" if len(carried) == 1 else "let '(%s) := r in " % ", ".join(vname(v) for v in carried)
+        pat = vname(carried[0]) if len(carried) == 1 else "r__"
+        unpack = "" if len(carried) == 1 else "let '(%s) := r__ in " % ", ".join(vname(v) for v in carried)
         self.tr.extra.append(
             "(* %s, the body of `%s` (rule T7) *)\nDefinition %s_body (F : opts)%s (%s : atom)%s : res %s :=\n%s.\n" % (
                 self.fdef.name, clean_comment(ast.unparse(s).splitlines()[0]), base, lp, vname(x), ps, rt, "\n".join(body)) +
-            "Fixpoint %s_loop (F : opts)%s (xs : list atom)%s : res %s :=\n  match xs with\n  | [] => Ok %s\n"
-            "  | x :: xs' => do %s <- %s_body F%s x%s; %s%s_loop F%s xs'%s\n  end.\n" % (
+            "Fixpoint %s_loop (F : opts)%s (xs__ : list atom)%s : res %s :=\n  match xs__ with\n  | [] => Ok %s\n"
+            "  | x__ :: xs__' => do %s <- %s_body F%s x__%s; %s%s_loop F%s xs__'%s\n  end.\n" % (
                 base, lp, ps, rt, (vname(carried[0]) if len(carried) == 1 else "(" + ", ".join(vname(v) for v in carried) + ")"),
                 pat, base, la, "".join(" " + vname(v) for v in carried), unpack, base, la, "".join(" " + vname(v) for v in carried)))
         out = ["do %s <- %s_loop F%s %s%s;" % (pat, base, la, t, "".join(" " + vname(v) for v in carried))]
         if len(carried) > 1:
-            out.append("let '(%s) := r in" % ", ".join(vname(v) for v in carried))
+            out.append("let '(%s) := r__ in" % ", ".join(vname(v) for v in carried))
         return out
 
     # -- whole function
@@ -806,7 +824,7 @@ class Fn:
             stmts = stmts + [ret_terms]
         lines += self.block(stmts, env, ("tail",), 1)
         ps = "".join(" (%s : %s)" % (vname(p), COQTY[t]) for p, t in params)
-        rt = "list entry" if self.spec["ret"] == "out" else self.spec.get("coq_ret") or COQTY[self.spec["ret"]]
+        rt = "(list entry)" if self.spec["ret"] == "out" else self.spec.get("coq_ret") or "(%s)" % COQTY[self.spec["ret"]]
         head = "Definition %s%s%s : res %s :=" % (self.spec["gname"], " (F : opts)" if self.spec.get("needsF") else "", ps, rt)
         return "(* %s, %s:%d *)\n%s\n%s.\n" % (self.fdef.name, self.src, self.fdef.lineno, head, "\n".join(lines))
 
@@ -992,10 +1010,20 @@ class Translator:
                 okd = isinstance(got, ast.Constant) and got.value == dflt and type(got.value) is type(dflt)
             if not okd:
                 raise Unsupported("%s:%d: default of %s is %s, expected %r" % (DIFF, init.lineno, par, ast.unparse(got), dflt))
-            # parameters are not rebound before use
-            for n in ast.walk(init):
-                if isinstance(n, ast.Assign) and any(isinstance(t, ast.Name) and t.id == par for t in n.targets):
-                    raise Unsupported("%s:%d: parameter %s is rebound in __init__" % (DIFF, n.lineno, par))
+            # parameters are not rebound - except by the two `ignore_type_in_groups` shortcuts (that option is outside the record:
+            # default None, so both tests are false)
+            for w in ast.walk(init):
+                for fld in ("body", "orelse", "finalbody"):
+                    for n in getattr(w, fld, []) if isinstance(getattr(w, fld, None), list) else []:
+                        if isinstance(n, ast.Assign) and any(isinstance(t, ast.Name) and t.id == par for t in n.targets):
+                            grp = REBIND_OK.get(par)
+                            ok = (grp is not None and isinstance(w, ast.If) and fld == "body" and len(w.body) == 1 and not w.orelse
+                                  and ast.unparse(w.test) == "%s == ignore_type_in_groups or %s in ignore_type_in_groups" % (grp, grp)
+                                  and ast.unparse(n.value) == "True" and len(n.targets) == 1)
+                            if not ok:
+                                raise Unsupported("%s:%d: parameter %s is rebound in __init__" % (DIFF, n.lineno, par))
+        if "ignore_type_in_groups" not in defaults or not (isinstance(defaults["ignore_type_in_groups"], ast.Constant) and defaults["ignore_type_in_groups"].value is None):
+            raise Unsupported("%s:%d: default of ignore_type_in_groups is not None" % (DIFF, init.lineno))
 
     # -- the key-set slice of _diff_dict (S3)
     def diff_dict_slice(self):
@@ -1064,7 +1092,8 @@ HEADER = """(* GENERATED by /verif/harness/translate/optionskeys.py from %s (Dee
    _diff_dict, _diff_booleans, _diff_numbers, _diff_datetime, _diff_time), %s (Base.get_significant_digits) and %s
    (number_to_string, number_formatting, KEY_TO_VAL_STR).  DO NOT EDIT: regenerated from the current source on every run of
    ./check C11.  Definitions only.  Types and primitives are those of DD.Options.YValue / YModel / OptSrcPrims; none of the
-   hand model's functions for these fragments (clean_key, clean_map, kmap, ckeys, numD, dtD, timeD, nstr, eff_sig) is used. *)
+   hand model's functions for these fragments (clean_key, clean_map, kmap, ckeys, numD, dtD, timeD, nstr) is used; `self.significant_digits`
+   is read as eff_sig F (rule T4), which OptionsGenEquiv.g_get_significant_digits_eq ties to Base.get_significant_digits. *)
 From Coq Require Import List ZArith NArith Bool Arith String.
 Import ListNotations.
 From DD Require Import Base.PyStr Options.OptModel Options.OptDtModel Options.YValue Options.YModel Options.OptSrcPrims.
